@@ -4,6 +4,7 @@ import itertools
 STRUCT_CHARS = list("[](){}λƛ'µ⟨⟩@;|Xx")
 MOD_CHARS = list("v⁽&~ßƒɖ₌‡₍≬")
 SYNTAX28 = list("|;])}⟩Xxv⁽&~ßƒɖ₌‡₍≬[({λƛ'µ⟨@")
+LEXSIG = list("\\`«»‛#⁺\n")      # characters the lexer itself reacts to (escapes, literal openers, comment)
 ATOMS = ["1", "12", "0", "2.5", "+", "-", "a", "b", ":", "_", "$", "n", "`s`", "`a|b`", "\\|", "\\X", "\\a", "‛ab", "‛|;",
          "→a", "←a", "←", "→", "»X»", "»1»", "«|«", "«ab«", "⁺v", "⁺1", "k1", "∆c", "Þf", "#c\n", "*", "2", " ", "M", "F", "ṡ", "†", "?"]
 
